@@ -570,3 +570,9 @@ mod tests {
         assert_eq!(match_indices, vec![3, 1]);
     }
 }
+
+// Verification hook (inactive unless compiled by the Kani verifier): pulls the
+// proof harnesses for this module in from the directory named by
+// DATAFUSION_VERIF_DIR so that they can reach private items.
+#[cfg(kani)]
+include!(concat!(env!("DATAFUSION_VERIF_DIR"), "/kani/physical_plan/join_hash_map.rs"));
